@@ -1,8 +1,441 @@
-import Isotp.Process
+import Isotp.Proofs.Limiter
 /-
-  C15 — property theorems (see DESIGN.md §6). Helper lemmas live in Isotp/Proofs.
+  C15 — "Rate limiter bounds bursts and never stalls a transfer."
+
+  Notation: W = `cfg.rlWindowNs` (rate_limit_window_size), S = `slotNs` (the limiter's 5 ms
+  accounting slot), M = `cfg.rlBitMax` (rate_limit_max_bitrate × rate_limit_window_size).
+
+  Helper lemmas, the abstract limiter run (`Step`, `Valid`, `emissions`, `bitsIn`), the
+  decomposition of `processTx` and the ghost frame lists of `txLoop` / `processLoop`
+  (`txLoopFrames`, `processLoopFrames`, `Session`) live in Isotp/Proofs/Limiter.lean.
+
+  Findings (details next to the theorems):
+  * the bound that holds is  M + 8·(P − 1)  bits for a largest CAN payload of P bytes (P = 64:
+    M + 504), i.e. "M plus one CAN frame" is respected; the slack is really needed
+    (`slack_needed`, `slack_needed_model`): the admission test compares the *unpadded* length
+    while the *padded* length is accounted;
+  * the window length W − S of the property is sharp (`window_sharp`): for an interval 1 ns longer
+    the limiter lets through almost 2·M bits;
+  * Flow Control frames are neither checked nor accounted (`admission`, first alternative);
+  * `reset()` empties the limiter, so the bound is about reset-free sessions (`Session`).
 -/
 namespace Isotp.C15
 open Isotp State
 
+/-! ### concrete states used by the non-vacuity examples -/
+
+def exHalf : Half :=
+  { mode := .n11, txid := some 0x123, rxid := some 0x456, ta := none, sa := none, ae := none
+    physId := 0, funcId := 0, rxOnly := false, txOnly := false }
+def exAddr : Addr := { tx := exHalf, rx := exHalf }
+/-- limiter enabled: 100 bits per 100 ms window, classic CAN -/
+def exCfg : Cfg := { rlEnable := true, rlWindowNs := 100000000, rlBitMax := 100 }
+
+def ex0 : State := State.init exCfg exAddr
+def ex1 : State := (ex0.send { id := 1, size := 7, src := [1, 2, 3, 4, 5, 6, 7] }).1
+def ex2 : State := (ex1.send { id := 2, size := 7, src := [8, 9, 10, 11, 12, 13, 14] }).1
+def ex3 : State := (ex2.process true true).1
+def ex4 : State := ((ex3.advance 100000001).process true true).1
+
+/-- limiter disabled (the default configuration) -/
+def exOff : State := (((State.init {} exAddr).send { id := 1, size := 7, src := [1, 2, 3, 4, 5, 6, 7] }).1.process
+  true true).1
+/-- the state between the two passes of `ex2.process`: first frame sent, second request queued -/
+def exPark : State := ex2.processTx.1
+/-- a state that is due to send a Consecutive Frame -/
+def exCf : State :=
+  { (State.init exCfg exAddr) with
+    txState := .transmitCf, remoteBs := some 0,
+    active := some { id := 1, size := 20, src := [7, 8, 9, 10, 11, 12, 13, 14], consumed := 6 },
+    timerStmin := { start := some 0, timeout := 0 } }
+
+theorem standbyOk_of_none (s : State) (h : s.standby = none) : StandbyOk s := by
+  intro m hm; rw [h] at hm; cases hm
+
+/-! ## 1. Limiter bookkeeping invariants -/
+
+/-- what `LimInv` says: `bitTotal` is the sum of the slot counters, the slots are sorted by start
+    time, and consecutive slots start more than one accounting slot (5 ms) apart -/
+theorem limInv_meaning (l : Limiter) (h : LimInv l) :
+    l.bitTotal = (l.slots.map (·.2)).sum ∧
+    l.slots.Pairwise (fun a b => a.1 ≤ b.1) ∧
+    ∀ i (hi : i + 1 < l.slots.length), l.slots[i].1 + slotNs < l.slots[i + 1].1 :=
+  ⟨h.total, h.sorted, h.consecutive⟩
+
+/-- `LimInv` holds for the fresh limiter and is preserved by `update`, `inform`
+    (`inform_byte_sent`) and `reset` -/
+theorem limInv_preserved :
+    (∀ en, LimInv { enabled := en }) ∧
+    (∀ l w now, LimInv l → LimInv (l.update w now)) ∧
+    (∀ l now n, LimInv l → LimInv (l.inform now n)) ∧
+    (∀ l : Limiter, LimInv l.reset) :=
+  ⟨limInv_init, limInv_update, limInv_inform, limInv_reset⟩
+
+/-- hence the limiter of every reachable layer state satisfies it -/
+theorem limInv_session {c : Cfg} {ad : Addr} {s : State} {F : List (Nat × CanMsg × Bool)}
+    (h : Session c ad s F) : LimInv s.rl := by
+  obtain ⟨steps, _, _, e, _⟩ := (session_loopSpec h).run
+  rw [e]
+  exact limInv_execAll _ _ _ (limInv_init _)
+
+example : LimInv { enabled := true, slots := [(0, 64), (6000000, 128)], bitTotal := 192 } :=
+  ⟨rfl, by simp [Gapped, slotNs]⟩
+
+/-! ## 2. With the limiter disabled no frame is ever held back -/
+
+/-- the disabled limiter: unlimited allowance, `inform` is the identity, `update` resets -/
+theorem disabled_limiter (l : Limiter) (h : l.enabled = false) :
+    (∀ m, l.allowedBytes m = 0xFFFFFFFF) ∧ (∀ now n, l.inform now n = l) ∧
+    (∀ w now, l.update w now = l.reset) :=
+  ⟨fun m => allowedBytes_disabled l m h, fun now n => inform_disabled l now n h,
+   fun w now => update_disabled l w now h⟩
+
+/-- `startTx` never parks a frame when at least 64 bytes are allowed (in particular with
+    `allowed = noLimit`): the unpadded frame length is at most 64 because `makeTxMsg` succeeded -/
+theorem disabled_startTx_never_parks (s : State) (r : Req) (a : Nat) (ha : 64 ≤ a)
+    (hn : NoStandbySt s) : NoStandbySt (s.startTx r a).1 :=
+  (startTx_spec s r a).2.2.2 ha hn
+
+example : (64 : Nat) ≤ noLimit ∧ NoStandbySt ex2 := by decide +kernel
+
+/-- … and a due Consecutive Frame is never withheld -/
+theorem disabled_cf_never_held (s : State) (h : s.cfg.txDl ≤ noLimit) : ¬ cfHeld s noLimit :=
+  not_cfHeld_of_le s noLimit h
+
+/-- one `processTx` pass with the limiter disabled never enters `sfStandby` / `ffStandby` -/
+theorem disabled_never_holds (s : State) (hsb : StandbyOk s) (hd : s.rl.enabled = false)
+    (hn : NoStandbySt s) : NoStandbySt s.processTx.1 ∧ s.processTx.1.rl.enabled = false := by
+  have hp := processTx_spec s hsb
+  refine ⟨hp.noStandby (by rw [allowedBytes_disabled _ _ hd]; decide) hn, ?_⟩
+  rcases hp.kind with ⟨_, h⟩ | ⟨_, _, _, _, _, _, _, h⟩ | ⟨_, _, _, _, h, _⟩ <;> rw [h]
+  · exact hd
+  · exact hd
+  · simpa using hd
+
+example : StandbyOk (State.init {} exAddr) ∧ (State.init {} exAddr).rl.enabled = false ∧
+    NoStandbySt (State.init {} exAddr) :=
+  ⟨standbyOk_of_none _ rfl, rfl, by decide⟩
+
+/-- over whole sessions: with `rate_limit_enable = False`, `is_tx_throttled()` is never true -/
+theorem disabled_never_throttled {c : Cfg} {ad : Addr} {s : State} {F : List (Nat × CanMsg × Bool)}
+    (h : Session c ad s F) (hd : c.rlEnable = false) : s.isTxThrottled = false := by
+  have := (session_loopSpec h).noStandby (by simpa [State.init] using hd)
+    (by simp [NoStandbySt, State.init])
+  unfold NoStandbySt at this
+  simp [isTxThrottled, this.1, this.2]
+
+example : (∃ F, Session {} exAddr exOff F) ∧ ({} : Cfg).rlEnable = false ∧
+    (txEvents exOff.log).length = 1 :=
+  ⟨⟨_, .process true true (.send _ .init)⟩, rfl, by decide +kernel⟩
+
+/-! ## 3. Admission test and accounting -/
+
+/-- Every frame that a `processTx` pass outputs is
+    * either the Flow Control frame of the pending-FC branch — it is neither checked against the
+      limiter nor accounted (`rl` unchanged);
+    * or a data frame of the transmit state machine: a length `len ≥ 1` was compared with
+      `allowed_bytes()` (so `bit_total + 8·len ≤ M` when enabled), the padded CAN payload has
+      1 … 64 bytes and exactly that padded length is accounted by `inform_byte_sent`. -/
+theorem admission (s : State) (hsb : StandbyOk s) (msg : CanMsg) (hout : s.processTx.2.1 = some msg) :
+    (s.pendingFc = true ∧ s.cfg.listen = false ∧
+      (∃ st, s.pendingFcStatus = some st ∧ makeFlowControl s.cfg s.addr st = some msg) ∧
+      s.processTx.1.rl = s.rl) ∨
+    ((s.pendingFc = false ∨ s.cfg.listen = true) ∧
+      (∃ len, 1 ≤ len ∧ len ≤ s.rl.allowedBytes s.cfg.rlBitMax ∧
+        (s.rl.enabled = true → s.rl.bitTotal + 8 * len ≤ s.cfg.rlBitMax)) ∧
+      1 ≤ msg.data.length ∧ msg.data.length ≤ 64 ∧
+      s.processTx.1.rl = s.rl.inform s.now msg.data.length ∧
+      (s.rl.enabled = true → s.processTx.1.rl.bitTotal = s.rl.bitTotal + 8 * msg.data.length)) := by
+  have hp := processTx_spec s hsb
+  rcases hp.kind with ⟨h, _⟩ | ⟨st, m, h1, h2, h3, h4, h5, h6⟩ | ⟨m, h1, h2, ⟨len, a1, a2, a3, a4⟩, h4, _⟩
+  · rw [h] at hout; simp at hout
+  · have : m = msg := by rw [h5] at hout; simpa using hout
+    subst this
+    exact Or.inl ⟨h1, h2, ⟨st, h3, h4⟩, h6⟩
+  · have : m = msg := by rw [h2] at hout; simpa using hout
+    subst this
+    refine Or.inr ⟨h1, ⟨len, a1, a2, fun hen => admitted_fits _ _ _ hen a1 a2⟩, a3, a4, h4, ?_⟩
+    intro hen
+    rw [h4, inform_bitTotal _ _ _ hen]
+
+/-- a pass that outputs a data frame (second alternative) -/
+example : StandbyOk ex2 ∧ ex2.processTx.2.1.isSome = true ∧ ex2.pendingFc = false :=
+  ⟨standbyOk_of_none _ (by decide +kernel), by decide +kernel, by decide +kernel⟩
+
+/-- the length compared for a new Single / First Frame is its unpadded length: `startTx` sends
+    the frame built by `buildTx` iff that length is allowed -/
+theorem admission_startTx (s : State) (r : Req) (a : Nat) (msg : CanMsg)
+    (h : (s.startTx r a).2 = some msg) :
+    ∃ s1 len, (buildTx s r = .sf s1 len msg ∨ buildTx s r = .ff s1 len msg) ∧ len ≤ a ∧
+      1 ≤ len ∧ len ≤ msg.data.length ∧ msg.data.length ≤ 64 := by
+  have hb := buildTx_spec s r
+  rw [startTx_eq] at h
+  rcases hbt : buildTx s r with s' | ⟨s1, len, m⟩ | ⟨s1, len, m⟩ <;> rw [hbt] at h hb <;>
+    simp only [dispatch, BuiltOk] at h hb
+  · simp at h
+  · split at h
+    · simp at h
+    · simp at h; subst h
+      exact ⟨s1, len, Or.inl rfl, by omega, hb.2.2.2⟩
+  · split at h
+    · simp at h; subst h
+      exact ⟨s1, len, Or.inr rfl, by omega, hb.2.2.2⟩
+    · simp at h
+
+/-- for a Consecutive Frame the compared length is the payload length
+    `min (tx_data_length − 1 − prefix) remaining`: a frame is output only if it is allowed -/
+theorem admission_cf (s : State) (a : Nat) (msg : CanMsg) (h : (s.transmitCf a).2.1 = some msg) :
+    ¬ cfHeld s a := by
+  intro hh
+  rw [transmitCf_held s a hh] at h
+  simp at h
+
+example : (ex1.startTx { id := 1, size := 7, src := [1, 2, 3, 4, 5, 6, 7] } 12).2.isSome = true ∧
+    (exCf.transmitCf 7).2.1.isSome = true := by decide +kernel
+
+/-! ## 4. The window bound -/
+
+/-- **Window bound** (abstract limiter run). Start from the empty enabled limiter; perform any
+    sequence of `update`s and admitted emissions with non-decreasing time stamps (`update` need
+    not be called between emissions, exactly as `txLoop` calls `processTx` repeatedly). Then the
+    bits accounted for the emissions made at times in any interval `[a, b]` with
+    `b − a ≤ W − S` (written `b + S ≤ a + W`) are at most `M + 8·(P − 1)`, `P` = largest padded
+    CAN payload. -/
+theorem window_bound (w m p : Nat) (steps : List Step)
+    (hv : Valid w m p { enabled := true } 0 steps) (a b : Nat) (hab : b + slotNs ≤ a + w) :
+    bitsIn a b (emissions steps) ≤ m + 8 * (p - 1) := by
+  simpa using window_core w m p a b hab { enabled := true } 0 steps 0 rfl hv (wInv_empty true)
+
+/-- the same with the interval length written with (truncated) subtraction -/
+theorem window_bound_sub (w m p : Nat) (steps : List Step)
+    (hv : Valid w m p { enabled := true } 0 steps) (hw : slotNs ≤ w) (a b : Nat)
+    (hab : b - a ≤ w - slotNs) : bitsIn a b (emissions steps) ≤ m + 8 * (p - 1) :=
+  window_bound w m p steps hv a b (by omega)
+
+/-- a run: two slots, the second burst is throttled to what is left of M = 1000 bits -/
+def exRun : List Step :=
+  [.update 0, .emit 0 8 8, .emit 0 8 8, .update 1000000, .emit 1000000 61 64, .update 7000000,
+   .emit 7000000 7 8, .update 120000000, .emit 120000000 60 64]
+
+example : Valid 100000000 1000 64 { enabled := true } 0 exRun := by decide +kernel
+example : bitsIn 0 95000000 (emissions exRun) = 704 := by decide +kernel
+
+/-- the "plus one CAN frame" slack is needed: two 2-byte frames padded to 64 bytes pass the
+    admission test back to back and put 1024 > M = 1000 bits on the bus at the same instant -/
+theorem slack_needed :
+    Valid 100000000 1000 64 { enabled := true } 0 [.emit 0 2 64, .emit 0 2 64] ∧
+    bitsIn 0 0 (emissions [.emit 0 2 64, .emit 0 2 64]) = 1024 := by decide +kernel
+
+/-- the interval length `W − S` is sharp: W = 100 ms, M = 1000. A slot opened at t = 0 collects
+    15 frames sent at t = 5 ms and expires at t = W + 1 ns, where 15 more frames are admitted:
+    1920 bits > M + 8·(P − 1) = 1056 inside an interval of length W − S + 1 ns -/
+def exSharp : List Step :=
+  [.emit 0 1 1] ++ List.replicate 15 (.emit 5000000 8 8) ++ [.update 100000001] ++
+    List.replicate 15 (.emit 100000001 8 8)
+
+theorem window_sharp :
+    Valid 100000000 1000 8 { enabled := true } 0 exSharp ∧
+    100000001 + slotNs = 5000000 + 100000000 + 1 ∧
+    bitsIn 5000000 100000001 (emissions exSharp) = 1920 := by decide +kernel
+
+/-- **Window bound for the model.** In any reset-free session of a layer with the limiter
+    enabled, the data-field bits of the data frames (Single / First / Consecutive Frames: the
+    `true`-tagged entries of `F`) handed to `txfn` at times in an interval `[a, b]` no longer than
+    W − S never exceed `M + 8·63` (< M plus one 64-byte CAN frame). -/
+theorem window_bound_session {c : Cfg} {ad : Addr} {s : State} {F : List (Nat × CanMsg × Bool)}
+    (h : Session c ad s F) (hen : c.rlEnable = true) (a b : Nat) (hab : b + slotNs ≤ a + c.rlWindowNs) :
+    bitsIn a b (dataBits F) ≤ c.rlBitMax + 8 * 63 := by
+  obtain ⟨steps, v, _, _, em⟩ := (session_loopSpec h).run
+  have hrl : (State.init c ad).rl = { enabled := true } := by simp [State.init, hen]
+  have hc : (State.init c ad).cfg = c := rfl
+  have hn : (State.init c ad).now = 0 := rfl
+  rw [hrl, hc, hn] at v
+  rw [← em]
+  exact window_bound _ _ 64 steps v a b hab
+
+/-- `F` is exactly what the harness saw on `txfn`: the `Ev.tx` events of the log (newest first)
+    are the frames of `F`; the frames tagged `false` are Flow Control frames built by
+    `_make_flow_control`, all others come from the transmit state machine. -/
+theorem session_frames {c : Cfg} {ad : Addr} {s : State} {F : List (Nat × CanMsg × Bool)}
+    (h : Session c ad s F) :
+    txEvents s.log = (allFrames F).reverse ∧
+    ∀ x ∈ F, x.2.2 = false → ∃ st, makeFlowControl c ad st = some x.2.1 := by
+  have hl := session_loopSpec h
+  exact ⟨by simpa [State.init, txEvents] using hl.txlog, hl.fcs⟩
+
+/-- every `process()` call is a limiter run: one `update` at the start of each tx phase, then only
+    admitted emissions at that same time (`rl` changes in no other way) -/
+theorem processLoop_is_run (f : Nat) (doRx doTx : Bool) (s : State) (st : Stats) (hsb : StandbyOk s) :
+    ∃ steps, Valid s.cfg.rlWindowNs s.cfg.rlBitMax 64 s.rl s.now steps ∧
+      (processLoop f doRx doTx s st).1.rl = execAll s.cfg.rlWindowNs s.rl steps ∧
+      emissions steps = dataBits (processLoopFrames f doRx doTx s st) := by
+  obtain ⟨steps, v, _, e, em⟩ := (processLoop_spec f doRx doTx s st hsb).run
+  exact ⟨steps, v, e, em⟩
+
+/-- `reset()` is the only other writer of the limiter: it empties it -/
+theorem reset_limiter (s : State) : s.reset.rl.slots = [] ∧ s.reset.rl.bitTotal = 0 :=
+  ⟨rfl, rfl⟩
+
+/-! ### the concrete session `ex0 … ex4`: throttling, then release -/
+
+example : exCfg.valid = true := by decide
+/-- the second Single Frame is parked … -/
+example : ex3.isTxThrottled = true ∧ (txEvents ex3.log).length = 1 ∧ ex3.rl.bitTotal = 64 := by
+  decide +kernel
+/-- … and released unchanged once the window has passed -/
+example : ex4.isTxThrottled = false ∧
+    (txEvents ex4.log).map (fun x => (x.1, x.2.data)) =
+      [(100000001, [7, 8, 9, 10, 11, 12, 13, 14]), (0, [7, 1, 2, 3, 4, 5, 6, 7])] := by
+  decide +kernel
+
+example : ∃ F, Session exCfg exAddr ex4 F :=
+  ⟨_, .process true true (.advance 100000001 (.process true true (.send _ (.send _ .init))))⟩
+
+/-- the slack is needed in the model too: CAN FD, `tx_data_min_length = 64`, M = 1000; two
+    1-byte messages are sent as two 64-byte frames at the same instant: 1024 bits > M -/
+def exCfgFd : Cfg :=
+  { rlEnable := true, rlWindowNs := 100000000, rlBitMax := 1000, txDl := 64, txMinLen := some 64,
+    canFd := true }
+def exFd : State :=
+  ((((State.init exCfgFd exAddr).send { id := 1, size := 1, src := [1] }).1.send
+    { id := 2, size := 1, src := [2] }).1.process true true).1
+
+theorem slack_needed_model :
+    exCfgFd.valid = true ∧
+    (txEvents exFd.log).map (fun x => (x.1, x.2.data.length)) = [(0, 64), (0, 64)] ∧
+    exFd.rl.bitTotal = 1024 := by decide +kernel
+
+/-! ## 5. Progress: throttling never stalls -/
+
+/-- `update` only removes: what remains is a suffix of the old slot list and the total does not
+    grow -/
+theorem update_only_removes (l : Limiter) (w now : Nat) :
+    (l.update w now).slots <:+ l.slots ∧ (l.update w now).bitTotal ≤ l.bitTotal :=
+  ⟨update_slots_suffix l w now, update_bitTotal_le l w now⟩
+
+/-- once every slot is older than the window (it suffices that the newest one is), `update`
+    empties the limiter and a full frame is allowed again: `allowed_bytes() ≥ tx_data_length` -/
+theorem progress_allowed (l : Limiter) (c : Cfg) (now : Nat) (hen : l.enabled = true)
+    (hinv : LimInv l) (hv : c.valid = true)
+    (h : ∀ z, l.slots.getLast? = some z → z.1 + c.rlWindowNs < now) :
+    (l.update c.rlWindowNs now).slots = [] ∧ (l.update c.rlWindowNs now).bitTotal = 0 ∧
+    c.txDl ≤ (l.update c.rlWindowNs now).allowedBytes c.rlBitMax :=
+  have hall := all_expired_of_last l c.rlWindowNs now hinv h
+  ⟨(update_all_expired l _ now hen hinv hall).1, (update_all_expired l _ now hen hinv hall).2,
+   allowed_after_expiry l c now hen hinv hv hall⟩
+
+example : 8 ≤ (({ enabled := true, slots := [(0, 64), (6000000, 128)], bitTotal := 192 } : Limiter).update
+    100000000 106000001).allowedBytes 100 :=
+  (progress_allowed { enabled := true, slots := [(0, 64), (6000000, 128)], bitTotal := 192 } exCfg 106000001
+    rfl ⟨rfl, by simp [Gapped, slotNs]⟩ (by decide)
+    (by intro z hz; simp at hz; subst hz; decide)).2.2
+
+/-- a frame is parked only if it fits `tx_data_length` (so it will be allowed after an idle window) -/
+theorem progress_parked_fits (s : State) (r : Req) (a : Nat) (hv : s.cfg.valid = true)
+    (hn : NoStandbySt s)
+    (hst : (s.startTx r a).1.txState = .sfStandby ∨ (s.startTx r a).1.txState = .ffStandby) :
+    ∃ msg, (s.startTx r a).1.standby = some msg ∧ msg.data.length ≤ s.cfg.txDl :=
+  startTx_parked_le s r a hv hn hst
+
+/-- `exPark`: the second request of the example session is parked by `startTx` -/
+example : exPark.cfg.valid = true ∧ NoStandbySt exPark ∧
+    (exPark.startTx { id := 2, size := 7, src := [8, 9, 10, 11, 12, 13, 14] } 4).1.txState = .sfStandby := by
+  decide +kernel
+
+/-- a parked frame is released by the next `processTx` pass in which it is allowed -/
+theorem progress_standby_released (s : State) (msg : CanMsg)
+    (hst : s.txState = .sfStandby ∨ s.txState = .ffStandby) (hsb : s.standby = some msg)
+    (hfit : msg.data.length ≤ s.rl.allowedBytes s.cfg.rlBitMax)
+    (hpf : s.pendingFc = false) (hfc : s.lastFc = none) (hto : s.timerFc.timedOut s.now = false)
+    (hact : s.active.isSome = true) (hexc : s.exc = none) :
+    s.processTx.2.1 = some msg ∧ s.processTx.1.standby = none ∧ NoStandbySt s.processTx.1 :=
+  have h := standby_released s msg hst hsb hfit hpf hfc hto hact hexc
+  ⟨h.1, h.2.1, h.2.2.1⟩
+
+/-- the parked state `ex3` satisfies the hypotheses after the clock advance (the limiter is
+    updated by `processLoop` before the pass) -/
+example :
+    let s := { ex3.advance 100000001 with rl := ex3.rl.update ex3.cfg.rlWindowNs (ex3.now + 100000001) }
+    (s.txState = .sfStandby) ∧ s.standby.map (·.data.length) = some 8 ∧ s.pendingFc = false ∧
+    s.lastFc = none ∧
+    s.timerFc.timedOut s.now = false ∧ s.active.isSome = true ∧ s.exc = none ∧
+    s.rl.allowedBytes s.cfg.rlBitMax = 12 := by decide +kernel
+
+/-- with `allowed ≥ tx_data_length` a due Consecutive Frame is not withheld and a new
+    transmission starts exactly as without limiter -/
+theorem progress_full_frame_allowed (s : State) (a : Nat) (hv : s.cfg.valid = true)
+    (ha : s.cfg.txDl ≤ a) :
+    ¬ cfHeld s a ∧ s.transmitCf a = s.transmitCf noLimit ∧ ∀ r, s.startTx r a = s.startTx r noLimit := by
+  have h64 := (valid_txDl s.cfg hv).2.1
+  have hno : ¬ cfHeld s noLimit := not_cfHeld_of_le s noLimit (by unfold noLimit; omega)
+  exact ⟨not_cfHeld_of_le s a ha, transmitCf_indep s a noLimit (not_cfHeld_of_le s a ha) hno,
+    fun r => startTx_unthrottled s r a hv ha⟩
+
+example : exCfg.valid = true ∧ exCfg.txDl ≤ 12 := by decide
+
+/-! ## 6. Throttling only delays: frame contents never depend on the limiter -/
+
+/-- `startTx`: the frame is built by `buildTx`, which does not see the limiter; the limiter only
+    chooses between sending and parking it (`dispatch`) -/
+theorem delay_only_startTx (s : State) (r : Req) (a : Nat) :
+    s.startTx r a = dispatch a (buildTx s r) ∧
+    (s.startTx r a = s.startTx r noLimit ∨
+      ∃ msg, (s.startTx r noLimit).2 = some msg ∧ (s.startTx r a).2 = none ∧
+        (s.startTx r a).1.standby = some msg ∧
+        ((s.startTx r a).1.txState = .sfStandby ∨ (s.startTx r a).1.txState = .ffStandby)) :=
+  ⟨startTx_eq s r a, startTx_delay_only s r a⟩
+
+/-- the standby branch outputs exactly the parked message and accounts its length -/
+theorem delay_only_release (s : State) (msg : CanMsg)
+    (hst : s.txState = .sfStandby ∨ s.txState = .ffStandby) (hsb : s.standby = some msg)
+    (hfit : msg.data.length ≤ s.rl.allowedBytes s.cfg.rlBitMax)
+    (hpf : s.pendingFc = false) (hfc : s.lastFc = none) (hto : s.timerFc.timedOut s.now = false)
+    (hact : s.active.isSome = true) (hexc : s.exc = none) :
+    s.processTx.2.1 = some msg ∧ s.processTx.1.rl = s.rl.inform s.now msg.data.length :=
+  have h := standby_released s msg hst hsb hfit hpf hfc hto hact hexc
+  ⟨h.1, h.2.2.2⟩
+
+/-- a withheld Consecutive Frame leaves the state untouched (nothing is pulled from the
+    generator), and the limiter influences `transmitCf` only through that test -/
+theorem delay_only_cf (s : State) (a : Nat) :
+    (cfHeld s a → s.transmitCf a = (s, none, false)) ∧
+    (∀ a', ¬ cfHeld s a → ¬ cfHeld s a' → s.transmitCf a = s.transmitCf a') :=
+  ⟨transmitCf_held s a, fun a' h h' => transmitCf_indep s a a' h h'⟩
+
+/-- `exCf` with only 3 bytes allowed: the 7-byte Consecutive Frame is withheld; with 7 it is not -/
+example : cfHeld exCf 3 ∧ ¬ cfHeld exCf 7 :=
+  ⟨⟨0, _, rfl, rfl, by decide, by decide⟩, fun ⟨_, _, _, h2, _, h4⟩ => by
+    have : exCf.active = some { id := 1, size := 20, src := [7, 8, 9, 10, 11, 12, 13, 14], consumed := 6 } := rfl
+    rw [this] at h2; injection h2 with h2; subst h2
+    revert h4; decide⟩
+
 end Isotp.C15
+
+#print axioms Isotp.C15.limInv_meaning
+#print axioms Isotp.C15.limInv_preserved
+#print axioms Isotp.C15.limInv_session
+#print axioms Isotp.C15.disabled_limiter
+#print axioms Isotp.C15.disabled_startTx_never_parks
+#print axioms Isotp.C15.disabled_cf_never_held
+#print axioms Isotp.C15.disabled_never_holds
+#print axioms Isotp.C15.disabled_never_throttled
+#print axioms Isotp.C15.admission
+#print axioms Isotp.C15.admission_startTx
+#print axioms Isotp.C15.admission_cf
+#print axioms Isotp.C15.window_bound
+#print axioms Isotp.C15.window_bound_sub
+#print axioms Isotp.C15.slack_needed
+#print axioms Isotp.C15.window_sharp
+#print axioms Isotp.C15.window_bound_session
+#print axioms Isotp.C15.session_frames
+#print axioms Isotp.C15.processLoop_is_run
+#print axioms Isotp.C15.reset_limiter
+#print axioms Isotp.C15.slack_needed_model
+#print axioms Isotp.C15.update_only_removes
+#print axioms Isotp.C15.progress_allowed
+#print axioms Isotp.C15.progress_parked_fits
+#print axioms Isotp.C15.progress_standby_released
+#print axioms Isotp.C15.progress_full_frame_allowed
+#print axioms Isotp.C15.delay_only_startTx
+#print axioms Isotp.C15.delay_only_release
+#print axioms Isotp.C15.delay_only_cf
